@@ -81,9 +81,16 @@ class Gen:
       d = {'list': [self.value(depth + 1) for _ in range(self.rng.randint(0, 2))]}
     elif r < 0.85:
       d = {'tuple': [self.value(depth + 1) for _ in range(self.rng.randint(1, 2))]}
-    elif r < 0.89:
+    elif r < 0.875:
       d = {'dict': [['k%d' % i, self.value(depth + 1)]
                     for i in range(self.rng.randint(1, 2))]}
+    elif r < 0.90:
+      inner = {'node': {'btype': 'Config', 'fn': 'g0',
+                        'args': [self.token()], 'kwargs': {}}}
+      d = ({'nt': [inner, self.token()]} if self.rng.random() < 0.5
+           else {'ddict': [['k', inner]]})
+    elif r < 0.0:
+      pass
     else:
       fn = self.rng.choice(['g0', 'g1'])
       args = [self.value(depth + 1) for _ in range(self.rng.randint(0, 2))]
@@ -91,7 +98,7 @@ class Gen:
         args += [self.value(depth + 1)]
       d = {'node': {'btype': 'Config', 'fn': fn, 'args': args, 'kwargs': {}}}
     d['id'] = nid
-    if 'tuple' not in d:
+    if 'tuple' not in d and 'nt' not in d:
       self.shareable.append(nid)
     return d
 
